@@ -58,7 +58,7 @@ RULE = ("a case = one input grid (Grid2D on a hostile mask up to 7x8 with anisot
         "values, profile class, centre, angle, tag coefficients); non-trivial = at least two coordinates with pairwise "
         "distinct tags (a single-coordinate grid cannot show a re-ordering) ")
 BOUNDS = {"quick": "5600 cases = 2400 Grid2D + 1600 Grid2DIrregular + 1600 Grid1D cases; masks up to 7x8",
-          "thorough": "280000 cases = 120000 Grid2D + 80000 Grid2DIrregular + 80000 Grid1D cases; masks up to 7x8"}
+          "thorough": "210000 cases = 90000 Grid2D + 60000 Grid2DIrregular + 60000 Grid1D cases; masks up to 7x8"}
 EXHAUSTIVE = {"quick": False, "thorough": False}
 ASSUMPTIONS = [
     "entries are compared bit-exactly with the tag of the coordinate the probe received (containers must not alter values)",
@@ -84,7 +84,7 @@ RADIAL_MIN = {"VerifC17Small": 1e-8, "VerifC17Mid": 0.3, "VerifC17Big": 2.5}
 
 # every unit interleaves the three grid kinds; global case number g -> (kind, per-kind index)
 CYCLE = ("grid2d", "irregular", "grid1d", "grid2d", "irregular", "grid1d", "grid2d")
-TOTAL = {"quick": 5600, "thorough": 280000}
+TOTAL = {"quick": 5600, "thorough": 210000}
 
 
 def kind_index(g):
